@@ -5,6 +5,7 @@ import NessaiVerif.Proofs.PoolAcc
 import NessaiVerif.Proofs.PoolFill
 import NessaiVerif.Proofs.PoolHand
 import NessaiVerif.Proofs.PoolRadial
+import NessaiVerif.Gen.PoolTx
 import Mathlib.Analysis.SpecialFunctions.Exp
 /-
 C09 — proposal pools follow the prior inside the contour and never leave the prior.
@@ -512,6 +513,50 @@ example :
         ⟨1, true, true, true, true, true, .ninf, .fin 0, .fin 0, false, false⟩, g 2], [g 3, g 4]], c ∈ b := by
   intro g
   exact likelihood_args_in_support_ins 2 _ [g 2, g 3] 2 (by decide +kernel)
+
+/-! ### the acceptance step of the source, regenerated on every run, IS the model's
+
+`Gen/PoolTx.lean` is produced by `harness/c09_tx.py` from the current text of `RejectionProposal.populate` (normalisation by
+`np.nanmax`, `log_u = np.log(np.random.rand(N))`, `np.where((log_w - log_u) >= 0)[0]`, `x[indices]`), literally, in the
+extended-value arithmetic of the model.  It selects exactly the candidates of `populateRejection`'s pool. -/
+
+theorem EV.sub_nan_right (x : EV) : EV.sub x .nan = .nan := by cases x <;> rfl
+theorem EV.ge_nan_left (y : EV) : EV.ge .nan y = false := by cases y <;> rfl
+
+theorem select_zipWith_eq_rejectMask {α : Type} (lw : List EV) (m : EV) (lus : List EV) (x : List α) :
+    select (List.zipWith (fun a b => EV.ge (EV.sub a b) (.fin 0)) (lw.map (fun w => EV.sub w m)) lus) x =
+      select (rejectMask lw m lus) x := by
+  induction lw generalizing lus x with
+  | nil => cases lus <;> cases x <;> simp [rejectMask, select]
+  | cons w ws ih =>
+    cases lus with
+    | nil =>
+      -- no uniform left: the model reads NaN (never accepted), the code's zip stops — nothing more is selected either way
+      have hfalse : ∀ (ws' : List EV) (y : List α), select (rejectMask ws' m []) y = [] := by
+        intro ws'
+        induction ws' with
+        | nil => intro y; cases y <;> simp [rejectMask, select]
+        | cons a as iha =>
+          intro y
+          cases y with
+          | nil => simp [rejectMask, select]
+          | cons y0 ys => simp [rejectMask, select, acceptRej, EV.sub_nan_right, EV.ge_nan_left, iha]
+      cases x with
+      | nil => simp [select]
+      | cons x0 xs => simpa [select] using (hfalse (w :: ws) (x0 :: xs)).symm
+    | cons u us =>
+      cases x with
+      | nil => simp [rejectMask, select]
+      | cons x0 xs =>
+        simp only [List.map_cons, List.zipWith_cons_cons, rejectMask, List.headD_cons, List.tail_cons, select, acceptRej]
+        rw [ih us xs]
+
+theorem rejection_accept_source_eq_model (cands : List Cand) (lus : List EV) :
+    (Gen.PoolTx.rejection_accept (logWeights cands) lus cands).map some = (populateRejection cands lus).pool := by
+  simp only [Gen.PoolTx.rejection_accept, populateRejection, select_zipWith_eq_rejectMask]
+
+example : Gen.PoolTx.rejection_accept [.fin 0, .fin (-1), .ninf] [.fin (-1/2), .fin (-1/2), .ninf] [10, 11, 12] = [10] := by
+  decide +kernel
 
 /-! ### the statistical clause, reduced to its deterministic core
 
